@@ -274,7 +274,7 @@ func c06Semantic(c *core.Ctx, idx int) {
 	var src []byte
 	var ver, edit string
 	fam := 5
-	if idx%4 == 1 {
+	if idx%8 == 1 {
 		g := gen.NewG(r.Split("prog"), gen.Opts{Fam: 5, NoHTML: true, MaxDepth: r.Range(2, 4), MaxStmts: 5})
 		root := g.Program()
 		ver = progVersion(r, 5, false)
